@@ -81,6 +81,7 @@ class Lower:
     def __init__(self, enums=None, conc_records=()):
         self.enums = dict(enums or {})
         self.conc_records = set(conc_records)     # records whose integer fields are made concrete (case split) on construction
+        self.plain_structs = set()                # C structs used by value / through a pointer: a bag of fields
         self.tmp = 0
         self.kinds = set()
 
@@ -171,6 +172,8 @@ class Lower:
             return f"[{self.default(inner)} for _ in range({m.group(2)})]"
         if t == "fvec4":
             return "CALL('fvec4', 0, 0, 0, 0)"
+        if t in self.plain_structs:
+            return "Struct()"
         raise LowerError("default construction of " + t)
 
     def elem_default(self, t):
@@ -385,6 +388,8 @@ class Lower:
                     return f"ADDR({self.expr(s['inner'][1])}, {self.expr(s['inner'][2])})"
                 if s.get("kind") == "ArraySubscriptExpr":
                     return f"ADDR({self.expr(s['inner'][0])}, {self.expr(s['inner'][1])})"
+                if s.get("kind") == "DeclRefExpr" and self.norm_t(s.get("type", {}).get("qualType", "")) in self.plain_structs:
+                    return self.expr(s)                 # pointer to a struct variable: the object itself
                 raise LowerError("address of " + str(s.get("kind")))
             if op == "*":
                 return f"IDX({self.expr(a)}, 0)"
@@ -905,6 +910,15 @@ def COPY(x):
     return x
 
 
+class Struct:
+    """a plain C struct: fields appear on assignment"""
+
+    def copy(self):
+        o = Struct()
+        o.__dict__.update({k: COPY(v) for k, v in self.__dict__.items()})
+        return o
+
+
 class Record:
     _fields = ()
 
@@ -1303,9 +1317,10 @@ def _dot3q(a, b):
 class Program:
     """the lowered declarations of one source file, executable"""
 
-    def __init__(self, src, functions, records=(), enums=(), includes=(), conc_records=(), merge_minmax=False):
+    def __init__(self, src, functions, records=(), enums=(), includes=(), conc_records=(), merge_minmax=False, plain_structs=()):
         decls = load_decls(src, list(functions) + list(records) + list(enums), includes)
         self.lower = Lower(conc_records=conc_records)
+        self.lower.plain_structs = set(plain_structs)
         for e in enums:
             self.lower.enum(decls[e])
         self.enums = dict(self.lower.enums)
@@ -1316,7 +1331,7 @@ class Program:
         self.summary_base = None  # constraints under which summaries are computed (None: the caller's base); weaker than every caller's base
         self.memo = {}            # summaries: valid while the argument OBJECTS (arrays) live and the base constraints are the same
         self.env = {"Vec": Vec, "Deque": Deque, "Map": Map, "Record": Record, "COPY": COPY, "IDX": IDX, "SET": SET, "ADDR": ADDR, "DEREF": DEREF, "NOT": NOT, "IDIV": IDIV, "IMOD": IMOD,
-                    "FDIV": FDIV, "FLT": FLT, "F2I": F2I, "UNINIT": UNINIT, "CALL": self.call, "CONC": CONC}
+                    "FDIV": FDIV, "FLT": FLT, "F2I": F2I, "UNINIT": UNINIT, "CALL": self.call, "CONC": CONC, "Struct": Struct}
         exec(compile(self.source, "<lowered " + str(src) + ">", "exec"), self.env)
         self.builtins = {"fvec4": F4, "dot3": _dot3, "sqrtf": _sqrtf, "sqrt": _sqrtf, "acosf": ACos, "acos": ACos, "min": lambda a, b: b if b < a else a, "max": lambda a, b: b if a < b else a,
                          "sort": self._sort}
